@@ -114,7 +114,21 @@ def one_case(ctx, index, rng: random.Random):
     pts = gen_points(rng, n, dim)
     weighted = rng.random() < 0.4
     w = np.asarray([rng.randint(1, 16) / 4 for _ in range(n)], dtype=float) if weighted else None
-    desc = {"kind": kind, "points": gen.hexlist(pts.ravel()), "weights": None if w is None else w.tolist()}
+    # separately passed coordinates may come in different element types (integer x with real y, float32 x):
+    # the values themselves are unchanged by the cast, so every entry path still has to agree
+    xcast = None
+    if kind in ("polar", "radial", "azimuthal") and rng.random() < 0.3:
+        xcast = rng.choice(["int64", "int32", "float32", "list_int"])
+        pts[:, 0] = (np.round(pts[:, 0]) + 0.0) if xcast != "float32" else pts[:, 0].astype(np.float32).astype(float)  # + 0.0: no negative zero, which an integer cannot hold
+
+    def first(col):
+        if xcast is None:
+            return col.copy()
+        if xcast == "list_int":
+            return [int(v) for v in col]
+        return col.astype(xcast)
+
+    desc = {"kind": kind, "xcast": xcast, "points": gen.hexlist(pts.ravel()), "weights": None if w is None else w.tolist()}
     on_axis = bool(np.any(np.sum(pts == 0, axis=1) >= 1))
 
     # ---- (1) transform: inverse formulas ---------------------------------------------------------
@@ -161,13 +175,13 @@ def one_case(ctx, index, rng: random.Random):
         with warnings.catch_warnings():
             warnings.simplefilter("ignore")
             if kind == "polar":
-                make = lambda data, **k: sp.polar(data[:, 0].copy(), data[:, 1].copy(), radial_bins=r_edges.copy(), phi_bins=phi_n, **k)
+                make = lambda data, **k: sp.polar(first(data[:, 0]) if not k.get("transformed") else data[:, 0].copy(), data[:, 1].copy(), radial_bins=r_edges.copy(), phi_bins=phi_n, **k)
             elif kind == "radial":
-                make = lambda data, **k: sp.radial(data[:, 0].copy(), data[:, 1].copy(), bins=r_edges.copy(), **k) if not k.get("transformed") else sp.radial(data.copy(), bins=r_edges.copy(), **k)
+                make = lambda data, **k: sp.radial(first(data[:, 0]), data[:, 1].copy(), bins=r_edges.copy(), **k) if not k.get("transformed") else sp.radial(data.copy(), bins=r_edges.copy(), **k)
             elif kind == "radial3":
                 make = lambda data, **k: sp.radial(data.copy(), bins=r_edges.copy(), **k)
             elif kind == "azimuthal":
-                make = lambda data, **k: sp.azimuthal(data[:, 0].copy(), data[:, 1].copy(), bins=phi_n, **k) if not k.get("transformed") else sp.azimuthal(data.copy(), bins=phi_n, **k)
+                make = lambda data, **k: sp.azimuthal(first(data[:, 0]), data[:, 1].copy(), bins=phi_n, **k) if not k.get("transformed") else sp.azimuthal(data.copy(), bins=phi_n, **k)
             elif kind == "spherical":
                 make = lambda data, **k: sp.spherical(data.copy(), radial_bins=r_edges.copy(), theta_bins=theta_n, phi_bins=phi_n, **k)
             elif kind == "spherical_surface":
@@ -298,7 +312,7 @@ def one_case(ctx, index, rng: random.Random):
                 if cname == "CylindricalSurfaceHistogram":
                     if abs(float(p.radius) - float(bins[0][-1, 1])) > 0:
                         rec.fail(monitor="C15.projection", op=f"{kind}.projection{axes}", symptom="cylinder-surface projection does not carry the outer radius", diff=["radius"], detail={})
-    rec.case(desc, on_axis and len(finals) >= 3, cls=f"{kind}/{'w' if weighted else 'u'}",
+    rec.case(desc, on_axis and len(finals) >= 3, cls=f"{kind}/{'w' if weighted else 'u'}{'/x:' + xcast if xcast else ''}",
              sample={"kind": kind, "points": pts[:4].tolist(), "paths": sorted(finals), "frequencies": np.asarray(finals["facade"].frequencies).ravel()[:8].tolist()})
 
 
